@@ -18,7 +18,7 @@ T0=$(date +%s.%N)
 VERIF_REPO="$S/repo" VERIF_OUT="$S/out" /verif/check "$PROP" "$TIER" > "$S/check.log" 2>&1
 RC=$?
 T1=$(date +%s.%N)
-SIGS=$(grep '^  sig:' "$S/check.log" | sed 's/^  sig: //' | head -5 | tr '\n' ';' | sed 's/"/\\"/g')
+SIGS=$(grep -a '^  sig:' "$S/check.log" | sed 's/^  sig: //' | head -5 | tr '\n' ';' | sed 's/"/\\"/g')
 REPLAYOK=null
 if [ $RC -eq 1 ]; then
   RP=$(grep -m1 '^VIOLATION' "$S/check.log" | sed 's/.*replay=//')
